@@ -151,18 +151,23 @@ def job_sweep(pid, seed, count, max_len):
         r = poolrun.PoolRun(cfg, src)
         r.main()
         base = list(r.labels)
-        for inj in SWEEPS.get(pid, []):
+        for k_inj, inj in enumerate(SWEEPS.get(pid, [])):
             w = inj.split()[0]
             if (w in ("apply", "map") and cfg["kind"] != "task") or \
                (w in ("start", "stop", "stopall") and cfg["kind"] != "simple"):
                 continue
             for pos in range(len(base) + 1):
+                if inj == "unlock" and any(l.startswith("driver k=gac") for l in base[:pos]):
+                    # unlock() behind a gather_and_close() is outside every property's
+                    # precondition (P-unlock), and there what flush() raises depends on CPython's
+                    # set iteration order (audit finding F1), which no model can reproduce
+                    continue
                 labels = base[:pos] + [inj] + base[pos:]
                 if inj.startswith("driver") and rng.random() < 0.5:
                     # inline start of the driver (await from the caller's own coroutine)
                     nd = sum(1 for l in base[:pos] if l.startswith("driver"))
                     labels = base[:pos] + [inj, f"run D{nd}"] + base[pos:]
-                res.append({"id": f"sweep-{seed}-{i}-{w}-{pos}",
+                res.append({"id": f"sweep-{seed}-{i}-{w}{k_inj}-{pos}",
                             "lines": poolrun.run_trace(cfg, labels), "kind": "sweep"})
     return res
 
